@@ -108,6 +108,11 @@ def writeContract : List Nat → List OutObs → Bool
   | [], _ :: _ => false
   | l :: ls, o :: os => outOK l o && writeContract ls os
 
+/-- the io.Writer contract on raw results `(len p, n, err = nil)` — for writes whose underlying writer fails, where
+    no model of the exchange exists: `0 ≤ n ≤ len p`, and a short count comes with an error -/
+def writeContractRaw (outs : List (Nat × Int × Bool)) : Bool :=
+  outs.all fun o => decide (0 ≤ o.2.1) && decide (o.2.1 ≤ (o.1 : Int)) && (!o.2.2 || o.2.1 == (o.1 : Int))
+
 /-! ### exclusion classes of the open findings (K15m, K15p) -/
 
 def isPrefixTrailerSet : Op → Bool
